@@ -58,16 +58,6 @@ type Connection struct {
 // NewConnection returns a new Connection based on
 // a host that has already joined a network.
 func NewConnection(ctx context.Context, log *slog.Logger, h *Host, codec tmcodec.MarshalCodec) (*Connection, error) {
-	consensusTopic, err := h.PubSub().Join(topicConsensus)
-	if err != nil {
-		return nil, err
-	}
-
-	consensusSub, err := consensusTopic.Subscribe()
-	if err != nil {
-		return nil, err
-	}
-
 	dhtPeer, err := dht.New(
 		ctx,
 		h.Libp2pHost(),
@@ -86,9 +76,6 @@ func NewConnection(ctx context.Context, log *slog.Logger, h *Host, codec tmcodec
 		h:       h,
 		dhtPeer: dhtPeer,
 
-		consensusTopic: consensusTopic,
-		consensusSub:   consensusSub,
-
 		outgoingProposals: make(chan tmconsensus.ProposedHeader, 1),
 
 		outgoingPrevoteProofs:   make(chan tmconsensus.PrevoteSparseProof, 1),
@@ -98,6 +85,30 @@ func NewConnection(ctx context.Context, log *slog.Logger, h *Host, codec tmcodec
 
 		disconnected: make(chan struct{}),
 	}
+
+	// One validator is registered for the lifetime of the connection.
+	// It ignores every message until a consensus handler is set.
+	// It has to be in place before we subscribe to the topic:
+	// the host may already be connected to peers,
+	// and pubsub forwards whatever arrives on a subscribed topic that has no validator.
+	if err := h.PubSub().RegisterTopicValidator(topicConsensus, c.validateConsensusMessage); err != nil {
+		return nil, fmt.Errorf("failed to register consensus topic validator: %w", err)
+	}
+
+	consensusTopic, err := h.PubSub().Join(topicConsensus)
+	if err != nil {
+		_ = h.PubSub().UnregisterTopicValidator(topicConsensus)
+		return nil, err
+	}
+
+	consensusSub, err := consensusTopic.Subscribe()
+	if err != nil {
+		_ = consensusTopic.Close()
+		_ = h.PubSub().UnregisterTopicValidator(topicConsensus)
+		return nil, err
+	}
+	c.consensusTopic = consensusTopic
+	c.consensusSub = consensusSub
 
 	// Ensure that the subscriptions are ready,
 	// as their setup happens in the background.
@@ -112,12 +123,6 @@ func NewConnection(ctx context.Context, log *slog.Logger, h *Host, codec tmcodec
 
 func (c *Connection) background(ctx context.Context) {
 	defer c.wg.Done()
-
-	// One validator is registered for the lifetime of the connection.
-	// It ignores every message until a consensus handler is set.
-	if err := c.h.PubSub().RegisterTopicValidator(topicConsensus, c.validateConsensusMessage); err != nil {
-		c.log.Warn("Failed to initialize consensus topic validator", "err", err)
-	}
 
 	for {
 		select {
